@@ -63,7 +63,8 @@ func langDecide(c *checkCtx, what, formula, witnessHarness, msg, src string) {
 		v, wit = v2, wit2
 	}
 	if c.tier == "thorough" && v == "unsat" {
-		v2, _, secs2, err2 := eng.LangQuery("cvc5", formula, 120*time.Second)
+		// second opinion with a short limit (cvc5 often does not finish these; a timeout is no disagreement)
+		v2, _, secs2, err2 := eng.LangQuery("cvc5", formula, 10*time.Second)
 		c.extraSolverS += secs2
 		if err2 == nil && v2 == "sat" {
 			c.incon = append(c.incon, "solver disagreement on language query "+what)
